@@ -40,6 +40,8 @@ pub struct Mega {
     pub desc: String,
     /// class of the handshake response the conversation starts with
     pub hs: String,
+    /// the shim offers TLS (the client does not take it: plaintext conversation behind a greeting with the SSL bit)
+    pub offer_tls: bool,
 }
 
 fn rcols(rng: &mut Rng, n: usize, bin: bool) -> Vec<Column> {
@@ -344,7 +346,8 @@ pub fn generate(rng: &mut Rng, max_cmds: usize) -> Mega {
     }
     // the documented entry points are interchangeable
     case.via_run_on_stream = rng.chance(1, 5);
-    Mega { conv, exps, case, desc, hs: hs_class }
+    let offer_tls = rng.chance(1, 3);
+    Mega { conv, exps, case, desc, hs: hs_class, offer_tls }
 }
 
 fn cols_match(got: &[wire::ColDef], want: &[Column]) -> Result<(), String> {
@@ -362,9 +365,17 @@ fn cols_match(got: &[wire::ColDef], want: &[Column]) -> Result<(), String> {
 /// Run the shared workload for `prop`, applying only that property's monitor.
 pub fn run(ctx: &Ctx, prop: &'static str, quick: u64, thorough: u64) -> Report {
     let n = if ctx.miri { 2 } else { ctx.n(quick, thorough) };
+    // a shim that offers TLS to clients that do not ask for it (native crypto: not under Miri)
+    let tlsm = if ctx.miri { None } else { crate::tls::TlsMaterial::generate().ok() };
     par_cases(ctx, prop, "mega", n, |rng, i, rep| {
         let m = generate(rng, if ctx.miri { 6 } else { 40 });
         let mut case = m.case.clone();
+        if m.offer_tls {
+            if let Some(t) = &tlsm {
+                case.tls = Some(t.server_optional.clone());
+                rep.counters.class("mega: shim offers TLS, client stays in plaintext".into());
+            }
+        }
         // C19: inject one transport fault somewhere
         if prop == "C19" {
             let dry = run_case(&case);
@@ -411,7 +422,7 @@ pub fn run(ctx: &Ctx, prop: &'static str, quick: u64, thorough: u64) -> Report {
         //      (C04: framing under short writes; C05: every id) - the server is sequential and
         //      deterministic, so how the bytes were cut cannot matter
         if matches!(prop, "C01" | "C04" | "C05") && !ctx.miri {
-            let mut twin = m.case.clone();
+            let mut twin = case.clone();
             twin.sched = crate::transport::Sched::all();
             twin.arrival = Arrival::Scripted;
             twin.write_limit = usize::MAX;
@@ -443,7 +454,7 @@ pub fn run(ctx: &Ctx, prop: &'static str, quick: u64, thorough: u64) -> Report {
         // ---- the same conversation over a real TCP socket on the loopback interface (run_on_tcp): the
         //      kernel chooses the chunking; callbacks and bytes must equal the in-memory run's
         if prop == "C02" && !ctx.miri && i % 8 == 0 && m.case.fault.err_at.is_none() {
-            match run_case_tcp(&m.case) {
+            match run_case_tcp(&case) {
                 Err(e) => {
                     // an extra layer: the in-memory runs decide; without a loopback interface this one is skipped
                     rep.counters.inc("loopback_tcp_runs_not_possible");
